@@ -83,9 +83,9 @@ structure FileRep where
   copyright : List Line
   deriving DecidableEq, Repr
 
-def spdxRefPrefix : Text := "SPDXRef-".toList
-def noAssertion : Text := "NOASSERTION".toList
-def noneText : Text := "NONE".toList
+def spdxRefPrefix : Text := ['S', 'P', 'D', 'X', 'R', 'e', 'f', '-']
+def noAssertion : Text := ['N', 'O', 'A', 'S', 'S', 'E', 'R', 'T', 'I', 'O', 'N']
+def noneText : Text := ['N', 'O', 'N', 'E']
 
 def spdxIdOf (digest : Text → Text) (name chk : Text) : Text :=
   spdxRefPrefix ++ digest (name ++ chk)
@@ -105,20 +105,20 @@ def generate (digest : Text → Text) (add : Bool) (i : FileInput) : FileRep :=
 
 -- ---------------------------------------------------------------- the document
 
-def tagFileName : Text := "FileName".toList
-def tagSpdxId : Text := "SPDXID".toList
-def tagChecksum : Text := "FileChecksum".toList
-def tagConcluded : Text := "LicenseConcluded".toList
-def tagInfoInFile : Text := "LicenseInfoInFile".toList
-def tagCopyright : Text := "FileCopyrightText".toList
-def tagRelationship : Text := "Relationship".toList
-def tagLicenseId : Text := "LicenseID".toList
-def tagLicenseName : Text := "LicenseName".toList
-def tagExtracted : Text := "ExtractedText".toList
-def tagCreator : Text := "Creator".toList
+def tagFileName : Text := ['F', 'i', 'l', 'e', 'N', 'a', 'm', 'e']
+def tagSpdxId : Text := ['S', 'P', 'D', 'X', 'I', 'D']
+def tagChecksum : Text := ['F', 'i', 'l', 'e', 'C', 'h', 'e', 'c', 'k', 's', 'u', 'm']
+def tagConcluded : Text := ['L', 'i', 'c', 'e', 'n', 's', 'e', 'C', 'o', 'n', 'c', 'l', 'u', 'd', 'e', 'd']
+def tagInfoInFile : Text := ['L', 'i', 'c', 'e', 'n', 's', 'e', 'I', 'n', 'f', 'o', 'I', 'n', 'F', 'i', 'l', 'e']
+def tagCopyright : Text := ['F', 'i', 'l', 'e', 'C', 'o', 'p', 'y', 'r', 'i', 'g', 'h', 't', 'T', 'e', 'x', 't']
+def tagRelationship : Text := ['R', 'e', 'l', 'a', 't', 'i', 'o', 'n', 's', 'h', 'i', 'p']
+def tagLicenseId : Text := ['L', 'i', 'c', 'e', 'n', 's', 'e', 'I', 'D']
+def tagLicenseName : Text := ['L', 'i', 'c', 'e', 'n', 's', 'e', 'N', 'a', 'm', 'e']
+def tagExtracted : Text := ['E', 'x', 't', 'r', 'a', 'c', 't', 'e', 'd', 'T', 'e', 'x', 't']
+def tagCreator : Text := ['C', 'r', 'e', 'a', 't', 'o', 'r']
 
-def sha1Prefix : Text := "SHA1: ".toList
-def describesPrefix : Text := "SPDXRef-DOCUMENT DESCRIBES ".toList
+def sha1Prefix : Text := ['S', 'H', 'A', '1', ':', ' ']
+def describesPrefix : Text := ['S', 'P', 'D', 'X', 'R', 'e', 'f', '-', 'D', 'O', 'C', 'U', 'M', 'E', 'N', 'T', ' ', 'D', 'E', 'S', 'C', 'R', 'I', 'B', 'E', 'S', ' ']
 
 /-- `report.copyright` is `"\n".join(sorted lines)`; the empty string gives `NONE`. -/
 def copyrightValue : List Line → Value
@@ -149,7 +149,7 @@ structure LicEntry where
 
 def isRefChar (c : Char) : Bool := c.isAlphanum || c == '-' || c == '.'
 
-def licenseRefPrefix : Text := "LicenseRef-".toList
+def licenseRefPrefix : Text := ['L', 'i', 'c', 'e', 'n', 's', 'e', 'R', 'e', 'f', '-']
 
 /-- `_LICENSEREF_PATTERN.match(ident)` for `LicenseRef-[a-zA-Z0-9-.]+$`
     (`$` also matches before one final line feed). -/
@@ -169,8 +169,8 @@ def sortLics (ls : List LicEntry) : List LicEntry :=
 
 /-- `format_creator` -/
 def formatCreator : Option Text → Text
-  | none => "Anonymous ()".toList
-  | some c => if c.contains '(' && endsWith c [')'] then c else c ++ " ()".toList
+  | none => ['A', 'n', 'o', 'n', 'y', 'm', 'o', 'u', 's', ' ', '(', ')']
+  | some c => if c.contains '(' && endsWith c [')'] then c else c ++ [' ', '(', ')']
 
 structure DocParams where
   docName : Text
@@ -181,19 +181,19 @@ structure DocParams where
   organization : Option Text
 
 def creatorComment : Text :=
-  "This document was created automatically using available reuse information consistent with REUSE.".toList
+  ['T', 'h', 'i', 's', ' ', 'd', 'o', 'c', 'u', 'm', 'e', 'n', 't', ' ', 'w', 'a', 's', ' ', 'c', 'r', 'e', 'a', 't', 'e', 'd', ' ', 'a', 'u', 't', 'o', 'm', 'a', 't', 'i', 'c', 'a', 'l', 'l', 'y', ' ', 'u', 's', 'i', 'n', 'g', ' ', 'a', 'v', 'a', 'i', 'l', 'a', 'b', 'l', 'e', ' ', 'r', 'e', 'u', 's', 'e', ' ', 'i', 'n', 'f', 'o', 'r', 'm', 'a', 't', 'i', 'o', 'n', ' ', 'c', 'o', 'n', 's', 'i', 's', 't', 'e', 'n', 't', ' ', 'w', 'i', 't', 'h', ' ', 'R', 'E', 'U', 'S', 'E', '.']
 
 def header (p : DocParams) : List Entry :=
-  [⟨"SPDXVersion".toList, .single "SPDX-2.1".toList⟩,
-   ⟨"DataLicense".toList, .single "CC0-1.0".toList⟩,
-   ⟨tagSpdxId, .single "SPDXRef-DOCUMENT".toList⟩,
-   ⟨"DocumentName".toList, .single p.docName⟩,
-   ⟨"DocumentNamespace".toList, .single ("http://spdx.org/spdxdocs/spdx-v2.1-".toList ++ p.uuid)⟩,
-   ⟨tagCreator, .single ("Person: ".toList ++ formatCreator p.person)⟩,
-   ⟨tagCreator, .single ("Organization: ".toList ++ formatCreator p.organization)⟩,
-   ⟨tagCreator, .single ("Tool: reuse-".toList ++ p.version)⟩,
-   ⟨"Created".toList, .single p.created⟩,
-   ⟨"CreatorComment".toList, .text creatorComment []⟩]
+  [⟨['S', 'P', 'D', 'X', 'V', 'e', 'r', 's', 'i', 'o', 'n'], .single ['S', 'P', 'D', 'X', '-', '2', '.', '1']⟩,
+   ⟨['D', 'a', 't', 'a', 'L', 'i', 'c', 'e', 'n', 's', 'e'], .single ['C', 'C', '0', '-', '1', '.', '0']⟩,
+   ⟨tagSpdxId, .single ['S', 'P', 'D', 'X', 'R', 'e', 'f', '-', 'D', 'O', 'C', 'U', 'M', 'E', 'N', 'T']⟩,
+   ⟨['D', 'o', 'c', 'u', 'm', 'e', 'n', 't', 'N', 'a', 'm', 'e'], .single p.docName⟩,
+   ⟨['D', 'o', 'c', 'u', 'm', 'e', 'n', 't', 'N', 'a', 'm', 'e', 's', 'p', 'a', 'c', 'e'], .single (['h', 't', 't', 'p', ':', '/', '/', 's', 'p', 'd', 'x', '.', 'o', 'r', 'g', '/', 's', 'p', 'd', 'x', 'd', 'o', 'c', 's', '/', 's', 'p', 'd', 'x', '-', 'v', '2', '.', '1', '-'] ++ p.uuid)⟩,
+   ⟨tagCreator, .single (['P', 'e', 'r', 's', 'o', 'n', ':', ' '] ++ formatCreator p.person)⟩,
+   ⟨tagCreator, .single (['O', 'r', 'g', 'a', 'n', 'i', 'z', 'a', 't', 'i', 'o', 'n', ':', ' '] ++ formatCreator p.organization)⟩,
+   ⟨tagCreator, .single (['T', 'o', 'o', 'l', ':', ' ', 'r', 'e', 'u', 's', 'e', '-'] ++ p.version)⟩,
+   ⟨['C', 'r', 'e', 'a', 't', 'e', 'd'], .single p.created⟩,
+   ⟨['C', 'r', 'e', 'a', 't', 'o', 'r', 'C', 'o', 'm', 'm', 'e', 'n', 't'], .text creatorComment []⟩]
 
 def relEntries (rs : List FileRep) : List Entry := (sortReports rs).map relEntry
 def fileBlocks (rs : List FileRep) : List (List Entry) := (sortReports rs).map fileBlock
